@@ -14,6 +14,34 @@ CHECKS = {
         "and that q*QINV = 1 mod 2^32; the model is tied to reduce.rs by executing both on every domain boundary plus "
         "random inputs in checked and release builds, with an independent congruence/range oracle on the crate's outputs.",
    ref="DESIGN.md section 3, C14", technique="Coq proof (lia over wrap_spec) + differential execution model vs crate"),
+ "C15": dict(
+   text="Machine-checked proofs (Coq) that the model's power2round, decompose, use_hint and make_hint equal the FIPS 204 functions for EVERY a in [0,q) and both "
+        "gamma2 (the magic-constant rounding step by an exhaustive kernel-checked sweep of all 65473 intermediate values, the rest by lia), that the signer's "
+        "hint bit makes use_hint on the perturbed value return exactly w1 for every w1 in [0,m) and every |a0| < 2*gamma2 (a superset of what the signer emits), "
+        "and that the bit equals MakeHint; decompose is a bijection onto the canonical (a1,a0) set. The model is tied to rounding*.rs, poly/*.rs and polyvec/*.rs by "
+        "executing both on all gamma2-boundaries, the a1 wrap, the magic-step boundaries and random values, with an independent Python specification oracle.",
+   ref="DESIGN.md section 3, C15", technique="Coq proof (finite vm_compute sweep + lia) + differential execution model vs crate"),
+ "C17": dict(
+   text="Machine-checked proofs (Coq) that the model's byte-level rejection routines return exactly the accepted prefix of the specification's CoeffFromThreeBytes / "
+        "CoeffFromHalfByte stream for ANY buffer and requested count (incl. short buffers), and that the polynomial samplers, as functions of an arbitrary XOF output "
+        "stream, are RejNTTPoly / RejBoundedPoly (with the refill loops, leftover handling proved vacuous) / BitUnpack with ranges [0,q), [-eta,eta], (-gamma1,gamma1], "
+        "and SampleInBall with exactly tau entries +-1 (Fisher-Yates invariant). The link from the abstract stream to the real SHAKE stream and the nonce formulas is "
+        "by the C12/C19 theorems and by executing model and crate on real seeds and, through the XOF tap, on scripted streams that force every refill branch; "
+        "independent Python oracle built on hashlib SHAKE.",
+   ref="DESIGN.md section 3, C17", technique="Coq proof over an abstract XOF stream + differential execution incl. XOF-tap scripted streams"),
+ "C18": dict(
+   text="Machine-checked proofs (Coq) that the model's chknorm returns 1 exactly when some coefficient has |x| >= B for every list with coefficients in [-2^30,2^30) "
+        "(a superset of the reduce32 range) and every B <= (q-1)/8, returns 1 for every B > (q-1)/8, likewise for l_chknorm/k_chknorm at every position, and that all "
+        "bounds used by the signer and verifier of the six sets are <= (q-1)/8. Tied to poly.rs / polyvec/*.rs by executing both with a single coefficient at "
+        "+-(B-1), +-B, +-(B+1), +-6283009 at enumerated positions of every polynomial of the vector for every bound, plus an independent oracle.",
+   ref="DESIGN.md section 3, C18", technique="Coq proof (induction over the coefficient loop) + differential execution model vs crate"),
+ "C19": dict(
+   text="Machine-checked proofs (Coq) that every vector operation of the model (index loops with checked get/set) equals the polynomial operation mapped over "
+        "the components, for arbitrary vectors of the right length: unary and binary lifts, multiplication by one polynomial, the matrix-vector product as the "
+        "per-row sum of pointwise products, power2round, decomposition with FIRST = high / second = low, hint creation with the summed count, hint use, w1 packing "
+        "as a splice of the concatenated encodings, and the nonce formulas of the expanders. Tied to polyvec/{lvl2,lvl3,lvl5}.rs by executing model and crate on "
+        "index-tagged vectors and by recomputing each vector result from the crate's own polynomial-level functions (lift oracle).",
+   ref="DESIGN.md section 3, C19", technique="Coq proof (generic for_idx/foldM lemmas) + differential execution + lift oracle"),
 }
 NOT_YET = {}
 
